@@ -725,6 +725,13 @@ def run(ctx: core.Ctx) -> int:
                    file=FILES["cpp"], func="_compile_impl", construct="generate before open",
                    msg="_compile_impl opens the output files before both texts have been generated: an error during generation leaves a (partial) source file")
     accept_rule(ctx, graph)
+    # F6:names (and every by-name binding the validation relies on) is discharged by the named-array constructors refusing unknown names:
+    # their guard is part of this property (rules shared with C13)
+    for _rid, _t in (("NV-NAMES", "named arrays accept exactly the str() names of their arglist"), ("NV-GUARD", "unknown names are refused before anything is stored"),
+                     ("NV-STORE", "a given value is stored at its own name's slot"), ("NV-DEFAULT", "defaults"), ("NV-DATA", "_data path"), ("NV-SHAPE", "shape")):
+        ctx.rule(_rid, _t)
+    c13.check_named(ctx, graph.mods["common"], "named_vector", "vec")
+    c13.check_named(ctx, graph.mods["common"], "named_covariance", "cov")
     c13.container_rule(ctx)
     return core.finish(ctx, explanation="validation matrix over the static call graph of the four compile entry points; guard recognisers by "
                                         "subject and relation", **META)
